@@ -70,6 +70,8 @@ def assemble(unit_name, unit):
                 args.append("--mapcollect")
             if piece.get("noextendmap"):
                 args.append("--noextendmap")
+            if piece.get("notryinto"):
+                args.append("--notryinto")
             args += ["--renames", piece.get("renames", DEFAULT_RENAMES)]
             if contracts:
                 args += ["--contracts", ",".join(contracts)]
